@@ -7,11 +7,13 @@ namespace Wl2k.Fmt
 
 def digit (n : Nat) : UInt8 := UInt8.ofNat (48 + n % 10)
 
-/-- `strconv.Itoa` / `%d` of a non-negative integer. -/
-def dec (n : Nat) : Bytes :=
-  if _h : n < 10 then [digit n] else dec (n / 10) ++ [digit n]
-termination_by n
-decreasing_by omega
+/-- Digit loop with explicit fuel (structural, so that `decide` can evaluate it). -/
+def decAux : Nat → Nat → Bytes
+  | 0, n => [digit n]
+  | f + 1, n => if n < 10 then [digit n] else decAux f (n / 10) ++ [digit n]
+
+/-- `strconv.Itoa` / `%d` of a non-negative integer. Fuel `n` always suffices (`Proofs.Fmt.dec_ge`). -/
+def dec (n : Nat) : Bytes := decAux n n
 
 /-- `%d` of a Go `int`. -/
 def decInt (i : Int) : Bytes :=
